@@ -150,7 +150,7 @@ VerdictCurve(c, h, grid, n, d, hits) ==       \* n = number of samples of the ob
                                        /\ BracketMatches(coded[j], <<hits[j][3], <<1, 2>>>>))
              THEN "hit-outside-bracketing-interval"
         ELSE IF \E j \in crossHits :
-                    /\ grid = "uni" /\ Monotone(c, h, grid, hits[j][3])
+                    /\ Monotone(c, h, grid, hits[j][3])        \* every grid: the clause holds per interval, uniform or not
                     /\ LET b == Bound(c, h, grid, hits[j][3])
                        IN  hits[j][4] * b[2] > b[1] * Scale + b[2]
              THEN "cubic-hit-error-exceeds-linear-interpolation-bound"
